@@ -1177,6 +1177,7 @@ class Ref(object):
         self.blocked = {}               # sid -> whether the task had to wait for a flush
         self.na_depth = 0
         self.pause_raisers = []
+        self.resume_raisers = []
 
     def lookup(self, which):
         for ent in reversed(self.scope):
@@ -1244,6 +1245,8 @@ class Ref(object):
         saved_na = self.na_depth
         saved_pr = self.pause_raisers
         self.pause_raisers = []
+        saved_rr = self.resume_raisers
+        self.resume_raisers = []
         self.na_depth = 0
         try:
             r = self.node(st, td.body)
@@ -1257,6 +1260,7 @@ class Ref(object):
             self.scope = saved_scope
             self.na_depth = saved_na
             self.pause_raisers = saved_pr
+            self.resume_raisers = saved_rr
         self.blocked[sid] = st["blocked"]
         return out, st["blocked"], st["depth"]
 
@@ -1287,6 +1291,10 @@ class Ref(object):
                 if self.pause_raisers:
                     # a context whose first pause() raises: the task fails when it is suspended inside the block
                     raise RefAbort(self.pause_raisers[-1])
+                if self.resume_raisers:
+                    # a context whose second resume() raises (the first one is __enter__): the task fails when it
+                    # is continued after having been suspended inside the block; the outermost one is resumed first
+                    raise RefAbort(self.resume_raisers[0])
             for o in outs:
                 if o[0] == "e":
                     raise RefErr(o[1])
@@ -1306,6 +1314,9 @@ class Ref(object):
             praise = spec[0] == "rec" and len(spec) > 2 and spec[2] is not None and spec[2] == ("pause", 1)
             if praise:
                 self.pause_raisers.append(("E", ("ctx", spec[1], "pause", 1)))
+            rraise = spec[0] == "rec" and len(spec) > 2 and spec[2] is not None and spec[2] == ("resume", 2)
+            if rraise:
+                self.resume_raisers.append(("E", ("ctx", spec[1], "resume", 2)))
             try:
                 try:
                     r = self.node(st, node[2])
@@ -1327,6 +1338,8 @@ class Ref(object):
             finally:
                 if praise:
                     self.pause_raisers.pop()
+                if rraise:
+                    self.resume_raisers.pop()
                 if pushed:
                     self.scope.pop()
                 if spec[0] == "na":
